@@ -343,3 +343,9 @@ def run(ctx):
         ctx.sample(spec['gen'], {'gen': spec['gen'], 'params': spec['params'], 'inspectors': insps,
                                  'schedules': [s[0] for s in case['schedules']], 'stream_len': len(data)})
         eval_case(ctx, case)
+
+
+# a third of the cases runs with the library's loggers at DEBUG and a handler that renders every record (debug=True in a
+# service's configuration); what the inspectors conclude may not depend on it
+from vlib import envmodes as _envmodes_dbg  # noqa: E402
+eval_case = _envmodes_dbg.with_modes(eval_case, debug=lambda case: True)
